@@ -78,6 +78,8 @@ func (c *codec) DecodeHeader(source io.Reader) (*Header, error) {
 		header.OpCode = primitive.OpCode(opCode)
 		if err := primitive.CheckValidOpCode(header.OpCode); err != nil {
 			return nil, err
+		} else if header.OpCode == primitive.OpCodeDseRevise && !version.IsDse() {
+			return nil, fmt.Errorf("invalid opcode for %v: %v", version, header.OpCode)
 		} else if isResponse {
 			if err := primitive.CheckResponseOpCode(header.OpCode); err != nil {
 				return nil, err
